@@ -914,6 +914,9 @@ class TestSuite(tsdb.Database):
             _add_row(self, tablename, data, buffer_size)
 
         tsdb.write_database(self, self.path, gzip=gzip)
+        # everything is on disk now, so the tables no longer have
+        # uncommitted rows (otherwise a later commit writes them again)
+        self.reload()
 
 
 def _add_row(ts: TestSuite,
